@@ -450,6 +450,11 @@ protected:
         {
            m_freeListHeadPtr = allocate(1);
            newNode = m_freeListHeadPtr;
+
+           // If constructing the value throws, this node
+           // stays on the free list, so it must be a
+           // well-formed, one-element list.
+           newNode->next = 0;
         }
 
         Constructor::construct(&newNode->value, data, *m_memoryManager);
